@@ -106,7 +106,7 @@ class Ctx:
             if r.returncode:
                 self.fatal("PPL does not build:\n" + r.stdout[-4000:])
             if c_interface:
-                r = sh(["make", "-C", os.path.join(REPO, "interfaces", "C"), "-j16"])
+                r = sh(["make", "-C", os.path.join(REPO, "interfaces", "C"), "-j16", "SUBDIRS=."])
                 if r.returncode:
                     self.fatal("PPL C interface does not build:\n" + r.stdout[-4000:])
             self.cov["ppl_build_s"] = round(time.time() - t, 1)
